@@ -103,10 +103,17 @@ func c01ImplM(in, model []int64) []int64 {
 		ws[i] = g.Spawn(i, func() {
 			for _, op := range progs[i] {
 				sched.Boundary()
-				if op == 0 {
+				switch {
+				case op == 0:
 					v, ok := a.r.Pop()
 					results[i] = append(results[i], 2, B(ok), v)
-				} else {
+				case op == -1:
+					results[i] = append(results[i], 3, int64(a.r.Len()))
+				case op == -2:
+					results[i] = append(results[i], 3, B(a.r.IsEmpty()))
+				case op == -3:
+					results[i] = append(results[i], 3, B(a.r.IsFull()))
+				default:
 					results[i] = append(results[i], 1, B(a.r.Push(op)))
 				}
 			}
@@ -266,8 +273,8 @@ func c01Gen(c *Ctx) {
 				if c.Quick() && k == 2 && fill == 2 {
 					continue
 				}
-				for _, p0 := range []int64{0, 71} {
-					for _, p1 := range []int64{0, 72} {
+				for _, p0 := range []int64{0, 71, -1, -3} {
+					for _, p1 := range []int64{0, 72, -2} {
 						cfgs = append(cfgs, cfg{k, b, fill, p0, p1})
 					}
 				}
@@ -305,10 +312,13 @@ func c01Gen(c *Ctx) {
 		total := 0
 		for j := range progs {
 			for o := 0; o < 1+r.Intn(3); o++ {
-				if r.Intn(2) == 0 {
+				switch x := r.Intn(12); {
+				case x < 5:
 					progs[j] = append(progs[j], 0)
-				} else {
+				case x < 10:
 					progs[j] = append(progs[j], int64(100*(j+1)+o+1))
+				default:
+					progs[j] = append(progs[j], -1-int64(r.Intn(3)))
 				}
 				total++
 			}
